@@ -1980,6 +1980,17 @@ class TLSConnection(TLSRecordLayer):
                             AlertDescription.handshake_failure,
                             "Client certificate is of wrong type"):
                         yield result
+                # EdDSA signatures are defined only for TLS 1.2 and later
+                if self.version < (3, 3) and \
+                        isinstance(clientCertChain, X509CertChain) and \
+                        clientCertChain.x509List and \
+                        clientCertChain.x509List[0].certAlg in \
+                        ("Ed25519", "Ed448"):
+                    for result in self._sendError(
+                            AlertDescription.handshake_failure,
+                            "Client certificate can't be used in the "
+                            "negotiated protocol version"):
+                        yield result
 
             clientCertificate = self._create_cert_msg(
                 "client", certificateRequest,
@@ -4486,6 +4497,13 @@ class TLSConnection(TLSRecordLayer):
                                     "FFDHE groups not acceptable and no other common "
                                     "ciphers")
                     raise TLSHandshakeFailure("No mutual ciphersuite")
+
+                # EdDSA signatures are defined only for TLS 1.2 and later
+                if cert and cert.x509List and version < (3, 3) and \
+                        cert.x509List[0].certAlg in ("Ed25519", "Ed448"):
+                    raise TLSHandshakeFailure(
+                        "EdDSA certificate can't be used in the negotiated "
+                        "protocol version")
 
                 # Find a signature algorithm based on the certificate
                 try:
